@@ -765,4 +765,414 @@ theorem invA_reachable {cfg : Cfg} {n : Nat} {s : State} (hr : Reachable cfg n s
   | init => exact invA_init n
   | step c _ hs ih => exact invA_step cfg c ih hs
 
+/-! ### wake-up invariant (no lost wake-up) -/
+
+theorem getElem?_set_cases {α : Type} (l : List α) (i j : Nat) (a b : α) (h : (l.set i a)[j]? = some b) :
+    (i = j ∧ b = a) ∨ (i ≠ j ∧ l[j]? = some b) := by
+  rw [getElem?_set] at h
+  by_cases hij : i = j
+  · left
+    simp only [hij, if_true] at h
+    split at h
+    · simp only [Option.some.injEq] at h; exact ⟨hij, h.symm⟩
+    · simp at h
+  · right
+    simp only [hij, if_false] at h
+    exact ⟨hij, h⟩
+
+/-- the main thread has passed the lock of `destroy` -/
+def MPc.inJoin : MPc → Prop
+  | .join _ => True
+  | .finished => True
+  | _ => False
+
+structure InvB (cfg : Cfg) (s : State) : Prop where
+  /-- a worker that waits on `queue_cond` without having been signalled has nothing to do: the queue is empty
+  and `destroy` has not yet taken the lock (every `submit` and `destroy` broadcasts) -/
+  waitQ : ∀ i : Nat, s.workers[i]? = some (WPc.waitQ false) → s.queue = [] ∧ ¬ s.main.inJoin
+  /-- a worker only exits after the status became non-zero -/
+  exited : ∀ i : Nat, s.workers[i]? = some WPc.exited → s.status ≠ 0
+  joinSt : s.main.inJoin → s.status ≠ 0
+  joinLt : ∀ j, s.main = .join j → j < s.workers.length
+  /-- the main thread waits on `done_cond` unsignalled only while nothing is dequeuable (every
+  `store_completed` broadcasts) and — repaired code — the status is still zero -/
+  deqWait : s.main = .deqWait false →
+    (∀ it r, s.done = it :: r → it.ticket ≠ s.nextDeq) ∧ (cfg.repaired = true → s.status = 0)
+
+theorem invB_init (cfg : Cfg) (n : Nat) : InvB cfg (init n) := by
+  constructor
+  · intro i hi
+    simp only [init, getElem?_replicate] at hi
+    split at hi <;> simp at hi
+  · intro i hi
+    simp only [init, getElem?_replicate] at hi
+    split at hi <;> simp at hi
+  · intro h; simp [init, MPc.inJoin] at h
+  · intro j h; simp [init] at h
+  · intro h; simp [init] at h
+
+theorem wakeMain_inJoin (m : MPc) : (wakeMain m).inJoin ↔ m.inJoin := by
+  cases m <;> simp [wakeMain, MPc.inJoin]
+
+theorem getElem?_wakeAll_ne (ws : List WPc) (j : Nat) : (wakeAll ws)[j]? ≠ some (.waitQ false) := by
+  simp only [wakeAll, getElem?_map]
+  cases ws[j]? with
+  | none => simp
+  | some pc => cases pc <;> simp [wakeW]
+
+theorem getElem?_wakeAll_exited (ws : List WPc) (j : Nat) (h : (wakeAll ws)[j]? = some .exited) :
+    ws[j]? = some .exited := by
+  simp only [wakeAll, getElem?_map] at h
+  cases hj : ws[j]? with
+  | none => simp [hj] at h
+  | some pc => cases pc <;> simp_all [wakeW]
+
+/-- main-thread moves that change neither workers nor queue/done/status/next_dequeue_ticket -/
+theorem InvB.frameMain {cfg : Cfg} {s s' : State} (h : InvB cfg s)
+    (hw : s'.workers = s.workers) (hq : s'.queue = s.queue) (hst : s'.status = s.status)
+    (hj : ¬ s'.main.inJoin) (hdw : s'.main ≠ .deqWait false) : InvB cfg s' := by
+  constructor
+  · intro i hi; rw [hw] at hi; rw [hq]; exact ⟨(h.waitQ i hi).1, hj⟩
+  · intro i hi; rw [hw] at hi; rw [hst]; exact h.exited i hi
+  · intro hx; exact absurd hx hj
+  · intro j hx; exact absurd (by rw [hx]; trivial) hj
+  · intro hx; exact absurd hx hdw
+
+theorem InvB.getNextWork {cfg : Cfg} {s : State} {i : Nat} (h : InvB cfg s) (_hlt : i < s.workers.length) :
+    InvB cfg (getNextWork s i) := by
+  unfold Sqfs.Pool.getNextWork
+  split
+  · rename_i hst
+    constructor
+    · intro j hj
+      rcases getElem?_set_cases _ _ _ _ _ hj with ⟨_, hb⟩ | ⟨_, hj⟩
+      · simp at hb
+      · exact h.waitQ j hj
+    · intro j _; exact hst
+    · exact h.joinSt
+    · intro j hj; simp only [length_set]; exact h.joinLt j hj
+    · exact h.deqWait
+  · rename_i hst
+    have hst0 : s.status = 0 := by
+      rcases Decidable.em (s.status = 0) with h0 | h0
+      · exact h0
+      · exact absurd h0 hst
+    split
+    · rename_i hq
+      constructor
+      · intro j hj
+        rcases getElem?_set_cases _ _ _ _ _ hj with ⟨_, _⟩ | ⟨_, hj⟩
+        · exact ⟨hq, fun hx => h.joinSt hx hst0⟩
+        · exact h.waitQ j hj
+      · intro j hj
+        rcases getElem?_set_cases _ _ _ _ _ hj with ⟨_, hb⟩ | ⟨_, hj⟩
+        · simp at hb
+        · exact h.exited j hj
+      · exact h.joinSt
+      · intro j hj; simp only [length_set]; exact h.joinLt j hj
+      · exact h.deqWait
+    · rename_i it q hq
+      constructor
+      · intro j hj
+        rcases getElem?_set_cases _ _ _ _ _ hj with ⟨_, hb⟩ | ⟨_, hj⟩
+        · simp at hb
+        · have := (h.waitQ j hj).1
+          rw [hq] at this; simp at this
+      · intro j hj
+        rcases getElem?_set_cases _ _ _ _ _ hj with ⟨_, hb⟩ | ⟨_, hj⟩
+        · simp at hb
+        · exact h.exited j hj
+      · exact h.joinSt
+      · intro j hj; simp only [length_set]; exact h.joinLt j hj
+      · exact h.deqWait
+
+theorem invB_stepWorker (cfg : Cfg) {s s' : State} (i : Nat) (spur : Bool) (h : InvB cfg s)
+    (hs : stepWorker cfg s i spur = some s') : InvB cfg s' := by
+  unfold stepWorker at hs
+  split at hs
+  · simp at hs
+  · rename_i hi
+    have hlt : i < s.workers.length := (List.getElem?_eq_some_iff.1 hi).1
+    split at hs
+    · simp at hs
+    · simp only [Option.some.injEq] at hs; subst hs
+      exact h.getNextWork hlt
+  · rename_i sig hi
+    have hlt : i < s.workers.length := (List.getElem?_eq_some_iff.1 hi).1
+    split at hs
+    · simp only [Option.some.injEq] at hs; subst hs
+      exact h.getNextWork hlt
+    · simp at hs
+  · rename_i it hi
+    split at hs
+    · simp at hs
+    · simp only [Option.some.injEq] at hs; subst hs
+      constructor
+      · intro j hj
+        rcases getElem?_set_cases _ _ _ _ _ hj with ⟨_, hb⟩ | ⟨_, hj⟩
+        · simp at hb
+        · exact h.waitQ j hj
+      · intro j hj
+        rcases getElem?_set_cases _ _ _ _ _ hj with ⟨_, hb⟩ | ⟨_, hj⟩
+        · simp at hb
+        · exact h.exited j hj
+      · exact h.joinSt
+      · intro j hj; simp only [length_set]; exact h.joinLt j hj
+      · exact h.deqWait
+  · rename_i it rc hi
+    have hlt : i < s.workers.length := (List.getElem?_eq_some_iff.1 hi).1
+    split at hs
+    · simp at hs
+    · simp only [Option.some.injEq] at hs; subst hs
+      refine InvB.getNextWork ?_ (by simp only [length_set]; exact hlt)
+      have hsticky : s.status ≠ 0 → (if rc ≠ 0 ∧ s.status = 0 then rc else s.status) ≠ 0 := by
+        intro h0; split
+        · rename_i hc; exact absurd hc.2 h0
+        · exact h0
+      constructor
+      · intro j hj
+        rcases getElem?_set_cases _ _ _ _ _ hj with ⟨_, hb⟩ | ⟨_, hj⟩
+        · simp at hb
+        · exact ⟨(h.waitQ j hj).1, fun hx => (h.waitQ j hj).2 ((wakeMain_inJoin _).1 hx)⟩
+      · intro j hj
+        rcases getElem?_set_cases _ _ _ _ _ hj with ⟨_, hb⟩ | ⟨_, hj⟩
+        · simp at hb
+        · exact hsticky (h.exited j hj)
+      · intro hx; exact hsticky (h.joinSt ((wakeMain_inJoin _).1 hx))
+      · intro j hj
+        simp only [length_set]
+        apply h.joinLt j
+        revert hj
+        show wakeMain s.main = .join j → s.main = .join j
+        cases s.main <;> simp [wakeMain]
+      · intro hx
+        exfalso; revert hx
+        show wakeMain s.main ≠ .deqWait false
+        cases s.main <;> simp [wakeMain]
+  · simp at hs
+
+theorem invB_deqTry (cfg : Cfg) {s : State} (h : InvB cfg s) (_hj : ¬ s.main.inJoin) : InvB cfg (deqTry cfg s) := by
+  have hwait : (∀ it r, s.done = it :: r → it.ticket ≠ s.nextDeq) → InvB cfg (deqWaitOrNull cfg s) := by
+    intro hnd
+    unfold deqWaitOrNull
+    split
+    · exact h.frameMain rfl rfl rfl (by simp [MPc.inJoin]) (by simp)
+    · rename_i hc
+      constructor
+      · intro i hi; exact ⟨(h.waitQ i hi).1, by simp [MPc.inJoin]⟩
+      · exact h.exited
+      · intro hx; simp [MPc.inJoin] at hx
+      · intro j hx; simp at hx
+      · intro _
+        refine ⟨hnd, ?_⟩
+        intro hr
+        simp only [hr, Bool.true_and, decide_eq_true_eq] at hc
+        exact Decidable.not_not.1 hc
+  unfold deqTry
+  split
+  · rename_i hd
+    exact hwait (by intro it r hx; rw [hd] at hx; simp at hx)
+  · rename_i it r hd
+    split
+    · exact h.frameMain rfl rfl rfl (by simp [deqReturn, MPc.inJoin]) (by simp [deqReturn])
+    · rename_i hne
+      exact hwait (by
+        intro it' r' hx
+        rw [hd] at hx
+        simp only [cons.injEq] at hx
+        rw [← hx.1]; exact hne)
+
+theorem invB_stepMain (cfg : Cfg) {s s' : State} (c : MChoice) (h : InvB cfg s)
+    (hs : stepMain cfg s c = some s') : InvB cfg s' := by
+  unfold stepMain at hs
+  split at hs
+  · simp only [Option.some.injEq] at hs; subst hs
+    exact h.frameMain rfl rfl rfl (by simp [MPc.inJoin]) (by simp)
+  · rename_i hmain
+    split at hs
+    · simp only [Option.some.injEq] at hs; subst hs
+      exact h.frameMain rfl rfl rfl (by simp [hmain, MPc.inJoin]) (by simp [hmain])
+    · split at hs
+      · simp only [Option.some.injEq] at hs; subst hs
+        exact h.frameMain rfl rfl rfl (by simp [deqReturn, MPc.inJoin]) (by simp [deqReturn])
+      · simp only [Option.some.injEq] at hs; subst hs
+        exact h.frameMain rfl rfl rfl (by simp [MPc.inJoin]) (by simp)
+  · simp only [Option.some.injEq] at hs; subst hs
+    exact h.frameMain rfl rfl rfl (by simp [MPc.inJoin]) (by simp)
+  · simp only [Option.some.injEq] at hs; subst hs
+    exact h.frameMain rfl rfl rfl (by simp [MPc.inJoin]) (by simp)
+  · -- submitLock: queue grows, every worker is woken
+    rename_i d hmain
+    simp only [Option.some.injEq] at hs; subst hs
+    have hst : (submitBody s d).status = s.status := by
+      unfold submitBody; by_cases h0 : s.status = 0 <;> simp [h0]
+    have hws : (submitBody s d).workers = wakeAll s.workers := by
+      unfold submitBody; by_cases h0 : s.status = 0 <;> simp [h0]
+    have hm : (submitBody s d).main = .idle := by
+      unfold submitBody; rfl
+    constructor
+    · intro i hi; rw [hws] at hi; exact absurd hi (getElem?_wakeAll_ne _ _)
+    · intro i hi; rw [hws] at hi; rw [hst]; exact h.exited i (getElem?_wakeAll_exited _ _ hi)
+    · intro hx; rw [hm] at hx; simp [MPc.inJoin] at hx
+    · intro j hx; rw [hm] at hx; simp at hx
+    · intro hx; rw [hm] at hx; simp at hx
+  · rename_i hmain
+    simp only [Option.some.injEq] at hs; subst hs
+    exact invB_deqTry cfg h (by simp [hmain, MPc.inJoin])
+  · rename_i sig spur hmain
+    split at hs
+    · simp only [Option.some.injEq] at hs; subst hs
+      exact invB_deqTry cfg h (by simp [hmain, MPc.inJoin])
+    · simp at hs
+  · simp only [Option.some.injEq] at hs; subst hs
+    exact h.frameMain rfl rfl rfl (by simp [MPc.inJoin]) (by simp)
+  · -- destroyLock
+    simp only [Option.some.injEq] at hs; subst hs
+    constructor
+    · intro i hi; exact absurd hi (getElem?_wakeAll_ne _ _)
+    · intro i _; show (-1 : Int) ≠ 0; decide
+    · intro _; show (-1 : Int) ≠ 0; decide
+    · intro j hx
+      show j < (wakeAll s.workers).length
+      simp only [wakeAll, length_map]
+      revert hx
+      show (if s.workers.length = 0 then MPc.finished else MPc.join 0) = MPc.join j → j < s.workers.length
+      split
+      · simp
+      · intro hx; simp only [MPc.join.injEq] at hx; omega
+    · intro hx; exfalso; revert hx
+      show (if s.workers.length = 0 then MPc.finished else MPc.join 0) ≠ MPc.deqWait false
+      split <;> simp
+  · -- join
+    rename_i i hmain
+    have hin : s.main.inJoin := by rw [hmain]; trivial
+    split at hs
+    · split at hs
+      · rename_i hlt
+        simp only [Option.some.injEq] at hs; subst hs
+        constructor
+        · intro j hj; exact absurd hin (h.waitQ j hj).2
+        · exact h.exited
+        · intro _; exact h.joinSt hin
+        · intro j hx; simp only [MPc.join.injEq] at hx; show j < s.workers.length; omega
+        · intro hx; simp at hx
+      · simp only [Option.some.injEq] at hs; subst hs
+        constructor
+        · intro j hj; exact absurd hin (h.waitQ j hj).2
+        · exact h.exited
+        · intro _; exact h.joinSt hin
+        · intro j hx; simp at hx
+        · intro hx; simp at hx
+    · simp at hs
+  · simp at hs
+
+theorem invB_step (cfg : Cfg) {s s' : State} (c : Choice) (h : InvB cfg s) (hs : step cfg s c = some s') :
+    InvB cfg s' := by
+  cases c with
+  | main c => exact invB_stepMain cfg c h hs
+  | worker i spur => exact invB_stepWorker cfg i spur h hs
+
+theorem invB_reachable {cfg : Cfg} {n : Nat} {s : State} (hr : Reachable cfg n s) : InvB cfg s := by
+  induction hr with
+  | init => exact invB_init cfg n
+  | step c _ hs ih => exact invB_step cfg c ih hs
+
+/-! ### number of workers, enabledness -/
+
+theorem getNextWork_length (s : State) (i : Nat) : (getNextWork s i).workers.length = s.workers.length := by
+  unfold getNextWork
+  split
+  · simp
+  · split <;> simp
+
+theorem step_length (cfg : Cfg) {s s' : State} (c : Choice) (hs : step cfg s c = some s') :
+    s'.workers.length = s.workers.length := by
+  cases c with
+  | worker i spur =>
+    simp only [step] at hs
+    unfold stepWorker at hs
+    split at hs
+    · simp at hs
+    · split at hs
+      · simp at hs
+      · simp only [Option.some.injEq] at hs; subst hs; exact getNextWork_length _ _
+    · split at hs
+      · simp only [Option.some.injEq] at hs; subst hs; exact getNextWork_length _ _
+      · simp at hs
+    · split at hs
+      · simp at hs
+      · simp only [Option.some.injEq] at hs; subst hs; simp
+    · split at hs
+      · simp at hs
+      · simp only [Option.some.injEq] at hs; subst hs; rw [getNextWork_length]; simp
+    · simp at hs
+  | main c =>
+    simp only [step] at hs
+    unfold stepMain at hs
+    split at hs
+    · simp only [Option.some.injEq] at hs; subst hs; rfl
+    · split at hs
+      · simp only [Option.some.injEq] at hs; subst hs; rfl
+      · split at hs
+        · simp only [Option.some.injEq] at hs; subst hs; rfl
+        · simp only [Option.some.injEq] at hs; subst hs; rfl
+    · simp only [Option.some.injEq] at hs; subst hs; rfl
+    · simp only [Option.some.injEq] at hs; subst hs; rfl
+    · simp only [Option.some.injEq] at hs; subst hs
+      unfold submitBody; by_cases h0 : s.status = 0 <;> simp [h0, wakeAll]
+    · simp only [Option.some.injEq] at hs; subst hs
+      unfold deqTry deqWaitOrNull deqReturn; split <;> (try split) <;> (try split) <;> rfl
+    · split at hs
+      · simp only [Option.some.injEq] at hs; subst hs
+        unfold deqTry deqWaitOrNull deqReturn; split <;> (try split) <;> (try split) <;> rfl
+      · simp at hs
+    · simp only [Option.some.injEq] at hs; subst hs; rfl
+    · simp only [Option.some.injEq] at hs; subst hs; simp [wakeAll]
+    · split at hs
+      · split at hs
+        · simp only [Option.some.injEq] at hs; subst hs; rfl
+        · simp only [Option.some.injEq] at hs; subst hs; rfl
+      · simp at hs
+    · simp at hs
+
+theorem workers_length_reachable {cfg : Cfg} {n : Nat} {s : State} (hr : Reachable cfg n s) :
+    s.workers.length = n := by
+  induction hr with
+  | init => simp [init]
+  | step c _ hs ih => rw [step_length cfg c hs, ih]
+
+/-- a worker that is neither an unsignalled waiter nor gone can take a strict step -/
+theorem worker_can_step (cfg : Cfg) (s : State) (i : Nat) (pc : WPc) (hi : s.workers[i]? = some pc)
+    (h1 : pc ≠ .waitQ false) (h2 : pc ≠ .exited) :
+    ∃ s', stepStrict cfg s (.worker i false) = some s' := by
+  simp only [stepStrict, Choice.strict, Bool.not_false, if_true, step]
+  unfold stepWorker
+  rw [hi]
+  cases pc with
+  | start => exact ⟨_, rfl⟩
+  | waitQ sig =>
+    cases sig with
+    | true => exact ⟨_, rfl⟩
+    | false => exact absurd rfl h1
+  | working it => exact ⟨_, rfl⟩
+  | finishing it rc => exact ⟨_, rfl⟩
+  | exited => exact absurd rfl h2
+
+/-- if `next_dequeue_ticket` is in `done` it is its head (so `try_dequeue_done` succeeds) -/
+theorem done_head_of_mem {s : State} (h : InvA s) (hm : s.nextDeq ∈ tks s.done) :
+    ∃ it r, s.done = it :: r ∧ it.ticket = s.nextDeq := by
+  cases hd : s.done with
+  | nil => rw [hd] at hm; simp [tks] at hm
+  | cons it r =>
+    refine ⟨it, r, rfl, ?_⟩
+    have hs := h.doneSorted
+    have hg := h.doneGe
+    rw [hd] at hs hg hm
+    simp only [tks, map_cons, pairwise_cons, mem_cons] at hs hg hm
+    rcases hm with h1 | h1
+    · exact h1.symm
+    · have := hs.1 _ h1
+      have := hg it.ticket (Or.inl rfl)
+      omega
+
 end Sqfs.Pool
